@@ -77,7 +77,7 @@ FirstDiff(src, sice, spal, back, bice, bpal, w) ==
 
 \* the documented crop: the loader drops trailing empty rows, so the reloaded picture may be lower, never higher,
 \* and every source row that is gone must show nothing (checked by PictureEq through CellAt)
-SizeOk(w, h, bw, bh) == bw = w /\ bh <= h /\ bh >= 1
+SizeOk(w, h, bw, bh) == bw = w /\ bh <= h
 
 (***************************************************************************)
 (* (iii) Tokens of the writer's output (the driver tokenises the bytes):    *)
